@@ -58,7 +58,7 @@ def make_model(rng):
             for f in t["fields"]:
                 fields.append({"name": f["name"], "args": f["args"], "type": f["type"],
                                "deprecated": (rng.choice(["No longer supported", "old field", "", "moved to \\\\server\\new\\file", "tab\\there"]) if rng.random() < 0.15 else None),
-                               "hidden": rng.random() < 0.08})
+                               "hidden": rng.random() < (0.5 if fields and fields[-1]["hidden"] else 0.08)})      # (runs of adjacent hidden fields)
             cut = rng.randint(1, len(fields)) if rng.random() < 0.4 else len(fields)
             d = {"kind": k, "name": t["name"], "fields": fields[:cut]}
             e = {"kind": k, "name": t["name"], "fields": fields[cut:]}
@@ -86,6 +86,12 @@ def make_model(rng):
             cut = rng.randint(1, len(fs)) if rng.random() < 0.4 else len(fs)
             defs.append({"kind": "input", "name": t["name"], "fields": fs[:cut]})
             if cut < len(fs): exts.append({"kind": "input", "name": t["name"], "fields": fs[cut:]})
+    # explicit `= null` defaults (reported as the text "null", unlike "no default")
+    for d_ in defs + exts:
+        for f_ in d_.get("fields") or []:
+            targets = (f_.get("args") or []) if d_["kind"] in ("object", "interface") else [f_]
+            for a_ in targets:
+                if not a_.get("default") and "nn" not in a_["type"] and rng.random() < 0.08: a_["default"] = {"kind": "NullValue"}
     directives = []
     if rng.random() < 0.6:
         directives.append({"name": "mark", "args": [{"name": "tag", "type": {"n": "String"}, "default": {"kind": "StringValue", "value": "d"}}], "locations": ["FIELD_DEFINITION", "OBJECT"]})
